@@ -56,6 +56,11 @@ def scenarios(tier):
     out.append({'name': 'derived face-face table (make_face_face_array, loop invariant)', 'fn': 'scn_make_face_face', 'kwargs': {}})
     for maxn in (3, 4):
         out.append({'name': f'derived edge-face table (make_edge_face_array, loop invariant)[faces of up to {maxn} edges]', 'fn': 'scn_make_edge_face', 'kwargs': {'maxn': maxn}})
+    for n in range(0, 8):
+        out.append({'name': f'utils.pairwise[{n} entries]', 'fn': 'scn_pairwise', 'kwargs': {'n': n}})
+    for maxn, fill, si in ((4, 'int_fill', 1), (5, 'nan', 0), (5, 'int_fill', 0), (6, 'nan', 1), (3, 'none', 1)):
+        out.append({'name': f'the sides of every face (_face_and_node_pair_iter at its yield)[up to {maxn} nodes, {fill}, start_index={si}]', 'fn': 'scn_pair_iter',
+                    'kwargs': {'maxn': maxn, 'fill': fill, 'si': si}})
     return out
 
 
@@ -465,3 +470,43 @@ def _power_of_ten(z):
 
 
 NATIVE = {'': 'topology', '_FillValue': 'fill_range'}
+
+
+def scn_pair_iter(c, maxn, fill, si):
+    """Mesh2DTopology._face_and_node_pair_iter, the helper behind the derived edge-node and face-edge tables (and through them the derived
+    edge-face and face-face tables), at its yield statement for an arbitrary face f (the loop over the faces is entered with a Skolem
+    iteration): what is yielded is (f, the sides of face f) - the consecutive pairs of the nodes of face f itself, closed with
+    (last, first); padding never becomes a node, whatever the width of the table and the fill representation."""
+    from pyvc.api import run_until
+    it = new_interp(use=[FILL_KEY])
+    ds = inputs.ugrid_mesh(c, maxn=maxn, fill=fill, start_index=si, edges='both')
+    info = ds.info
+    topo = it.instantiate(cls(it, 'emsarray.conventions.ugrid', 'Mesh2DTopology'), [ds], {})
+    _, f = it.class_attr(topo.cls, '_face_and_node_pair_iter')
+    env = run_until(it, f, 'yield', lambda: list(it.iterate(method(it, topo, '_face_and_node_pair_iter'))))
+    if env is None:
+        raise PathEnd()           # a mesh without faces: nothing is yielded
+    fi, nodes = env.lookup('face_index'), env.lookup('node_indexes')
+    c.check('the face index yielded is a row of the table', mk_bool(z3.And(zint(fi) >= 0, zint(fi) < zint(info['nface']))))
+    cnt = info['mesh_count'](fi)
+    c.check('the node list of face f has one entry per node of f, plus the first node again', len(nodes.shape) == 1 and s_eq(nodes.shape[0], cnt + 1))
+    j = c.fresh_int('jq')
+    c.assume(j >= 0)
+    c.assume(j < cnt)
+    got = nodes.fn((j,))
+    c.check('entry j is node j of face f itself (zero-based, whatever the index base and fill representation of the file)', s_eq(got, info['mesh_node'](fi, j)))
+    c.check('the list is closed with the first node of face f', s_eq(nodes.fn((cnt,)), info['mesh_node'](fi, 0)))
+    # the yield expression: (face_index, list(pairwise(node list)))
+    import ast
+    st = [n for n in ast.walk(f.node) if isinstance(n, ast.Yield)]
+    c.check('one yield: (face_index, list(utils.pairwise(node_indexes)))',
+            len(st) == 1 and ast.unparse(st[0].value) == '(face_index, list(utils.pairwise(node_indexes)))')
+
+
+def scn_pairwise(c, n):
+    """utils.pairwise (real body, on a list of n symbolic entries): the consecutive pairs, in order"""
+    it = new_interp()
+    f = fn(it, 'emsarray.utils', 'pairwise')
+    xs = [c.fresh_int(f'x{k}') for k in range(n)]
+    r = expect_ok(c, 'pairwise returns', lambda: list(it.iterate(call(it, f, list(xs)))))
+    c.check(f'pairwise of {n} entries: the {max(n - 1, 0)} consecutive pairs in order', len(r) == max(n - 1, 0) and all(tuple(p)[0] is xs[k] and tuple(p)[1] is xs[k + 1] for k, p in enumerate(r)))
